@@ -70,8 +70,7 @@ func c05Outbound(run *ev.Run) {
 		hs := svc.Handlers(reg, hopts...)
 		lb := &wire.Loopback{Handler: svc.Mux(hs)}
 		cs := svc.NewClientSet(lb, "http://verif.local", copts...)
-		r := run.Rand("c05/out/" + cfg)
-		texts := gen.TextClasses(r, 300)
+		texts := gen.TextClasses(run.Rand("c05/out/texts/"+cfg), 300)
 		var classNames []string
 		for k := range texts {
 			classNames = append(classNames, k)
@@ -82,6 +81,7 @@ func c05Outbound(run *ev.Run) {
 			if !run.Want(key) {
 				continue
 			}
+			r := run.Rand(key) // per-case stream, so that a replay regenerates exactly this case
 			c05OutCase(run, r, reg, lb, cs, algos, c.proto, c.codec, c.kind, c.mode, cfg, key, texts, classNames)
 		}
 	})
@@ -357,13 +357,12 @@ func c05InboundResponses(run *ev.Run) {
 	parallel(16, len(cfgs), func(ci int) {
 		c := cfgs[ci]
 		cfg := fmt.Sprintf("%s/%s/%s", c.proto, c.codec, c.kind)
-		r := run.Rand("c05/in-resp/" + cfg)
 		for i := 0; i < per; i++ {
 			key := fmt.Sprintf("c05/in-resp/%s/i=%d", cfg, i)
 			if !run.Want(key) {
 				continue
 			}
-			c05InRespCase(run, r, c.proto, c.codec, c.kind, cfg, key)
+			c05InRespCase(run, run.Rand(key), c.proto, c.codec, c.kind, cfg, key)
 		}
 	})
 }
@@ -636,7 +635,6 @@ func c05InboundRequests(run *ev.Run) {
 	parallel(16, len(cfgs), func(ci int) {
 		c := cfgs[ci]
 		cfg := fmt.Sprintf("%s/%s/%s", c.proto, c.codec, c.kind)
-		r := run.Rand("c05/in-req/" + cfg)
 		reg := svc.NewRegistry()
 		hs := svc.Handlers(reg)
 		for i := 0; i < per; i++ {
@@ -644,6 +642,7 @@ func c05InboundRequests(run *ev.Run) {
 			if !run.Want(key) {
 				continue
 			}
+			r := run.Rand(key)
 			streamCT := !(c.proto == "connect" && c.kind == svc.Unary)
 			n := 1
 			if c.kind == svc.ClientStream || c.kind == svc.Bidi {
